@@ -329,7 +329,17 @@ def enumerate_cases(tier, seed):
                 if en.count(False) <= 1:
                     for ex in EXEC:
                         add(kinds, [1] * 4, ["lit"] * 4, en, "custom", ex, 2, "zero")
-    return cases
+    # ---- the legacy entry point pyxel.observation_mode (deprecated, still public; its own implementation of the three
+    #      modes): every plain case (no re-run / special marker) of up to 2 parameters (thorough: all sizes), and the
+    #      colliding-name trios
+    legacy = []
+    for c in cases:
+        if c["exec"] != "seq" or any(c.get(k) for k in ("rerun", "cfglen2", "cfgval", "dup")) or max(c["lens"]) > 3:
+            continue
+        if not thorough and len(c["kinds"]) > 3:
+            continue
+        legacy.append(dict(c, exec="legacy"))
+    return cases + legacy
 
 
 # ---------------------------------------------------------------- reference model
@@ -496,9 +506,24 @@ def run_case(case):
                     elif case["rerun"] == "other":
                         det, pipe = build_detector(case, True), build_pipeline(case, True)
                     probes.reset()
-                result = pyxel.run_mode(obs, det, pipe, with_inherited_coords=True)
-                ds = bucket_dataset(result)
-                ds = ds.load()
+                if ex == "legacy":
+                    legacy_result = pyxel.observation_mode(obs, det, pipe)
+                    ds = legacy_result.dataset
+                    if isinstance(ds, dict):       # sequential: one dataset per parameter; only the executed runs are judged
+                        ds = None
+                    else:
+                        ds = ds.rename({"readout_time": "time"}).load()
+                        # the legacy result labels a vector-valued parameter with an index '<name>_id'; the vectors
+                        # themselves are in the separate 'parameters' dataset: attach them as a coordinate on that index
+                        par = legacy_result.parameters
+                        for name in list(par.data_vars):
+                            idn = f"{name}_id"
+                            if idn in ds.dims and name not in ds.coords and par[name].dims[0] == idn:
+                                ds = ds.assign_coords({name: par[name].sel({idn: ds.coords[idn]})})
+                else:
+                    result = pyxel.run_mode(obs, det, pipe, with_inherited_coords=True)
+                    ds = bucket_dataset(result)
+                    ds = ds.load()
         except Problem as p:
             bad(p.code, p.text)
             return {"viol": viol, "sig": cfgx.sig(sig_base + [p.code]), "nontrivial": nontrivial}
@@ -545,6 +570,9 @@ def run_case(case):
 
     # ---- (2) result entries and labels
     layout = []
+    if ds is None:
+        return {"viol": viol, "sig": cfgx.sig(sig_base + ["legacy-sequential"]), "nontrivial": nontrivial,
+                "n": max(1, len(runs)), "outcome": {"elements": len(ref), "runs": len(runs), "layout": "legacy-sequential"}}
     try:
         enabled_keys = [KINDS[k][0] for k in en_kinds]
         names = {}
